@@ -97,5 +97,9 @@ def run(rep, tier, seed, replay):
            "numerics and rates) in first/middle/last position under random accepted configs (reserved rule labels allowed) and all 16 flag sets, "
            "each followed by four known-good lines and a scrape; non-trivial = stream with non-ASCII bytes; distinct by op sequence", extra_cases=extra)
     if not replay and len(rep.violations) < 5:
+        # the built binary over its sockets: hostile streams under every wiring of cache and parsers main() can produce
+        import e2e_engine as E2E
+        E2E.run(rep, "C02", tier, seed, n_quick=16, n_thorough=600, gen=E2E.gen_hostile_case, key="e2e_hostile")
+    if not replay and len(rep.violations) < 5:
         parser_block(rep, tier, seed)
         rep.cov["rule"] += "; plus %d hostile lines through the parser alone under random flag sets, events and all parser counters compared with the model" % rep.extra.get("hostile_lines_through_the_parser", 0)
